@@ -416,6 +416,19 @@ func (fv *FV) storeField(st *State, base Term, name string, v Term, y *ast.Selec
 }
 
 func (fv *FV) storeDeref(st *State, p, v Term, y *ast.StarExpr) {
+	if p.Sort == "ElemPtr" && p.Word {
+		// unsafe 64-bit store into a byte slice: 8 adjacent bytes
+		key, _ := fv.elemComp(types.Typ[types.Uint8])
+		E := fv.heapGet(st, key)
+		b := "(epbase " + p.S + ")"
+		vv, _ := fv.coerce(v, Term{Sort: sBV64})
+		a := sel(E, b)
+		for k := 0; k < 8; k++ {
+			a = sto(a, app("+", "(epidx "+p.S+")", fmt.Sprint(k)), fmt.Sprintf("((_ extract %d %d) %s)", 8*k+7, 8*k, vv.S))
+		}
+		fv.heapSet(st, key, sto(E, b, a))
+		return
+	}
 	if p.Sort == "ElemPtr" {
 		et := p.T.Underlying().(*types.Pointer).Elem()
 		key, _ := fv.elemComp(et)
@@ -703,20 +716,72 @@ func (fv *FV) verify() (err error) {
 
 func (fv *FV) numberLoops(body *ast.BlockStmt) {
 	n := 0
-	ast.Inspect(body, func(nd ast.Node) bool {
-		switch x := nd.(type) {
-		case *ast.FuncLit:
-			_ = x
-			return true
-		case *ast.ForStmt:
-			n++
-			fv.loopOrd[x] = n
-		case *ast.RangeStmt:
-			n++
-			fv.loopOrd[x] = n
+	fv.ghostLoops = map[*GhostStmt]map[int]bool{}
+	var stack []int
+	var visit func(nd ast.Node)
+	note := func(s ast.Stmt) {
+		if fv.fc == nil {
+			return
 		}
-		return true
-	})
+		var text string
+		for _, g := range fv.fc.Ghosts {
+			var want string
+			switch {
+			case strings.HasPrefix(g.Anchor, "after "):
+				want = g.Anchor[6:]
+			case strings.HasPrefix(g.Anchor, "before "):
+				want = g.Anchor[7:]
+			default:
+				continue
+			}
+			if text == "" {
+				text = normSpace(fv.srcFull(s))
+			}
+			if normSpace(strings.Trim(strings.TrimSpace(want), "\"")) == text {
+				m := fv.ghostLoops[g]
+				if m == nil {
+					m = map[int]bool{}
+					fv.ghostLoops[g] = m
+				}
+				for _, k := range stack {
+					m[k] = true
+				}
+			}
+		}
+	}
+	visit = func(nd ast.Node) {
+		ast.Inspect(nd, func(c ast.Node) bool {
+			if c == nil || c == nd {
+				return true
+			}
+			switch x := c.(type) {
+			case *ast.ForStmt:
+				n++
+				fv.loopOrd[x] = n
+				fv.loopNest[n] = append([]int(nil), stack...)
+				stack = append(stack, n)
+				visit(x)
+				stack = stack[:len(stack)-1]
+				return false
+			case *ast.RangeStmt:
+				n++
+				fv.loopOrd[x] = n
+				fv.loopNest[n] = append([]int(nil), stack...)
+				stack = append(stack, n)
+				visit(x)
+				stack = stack[:len(stack)-1]
+				return false
+			case *ast.ExprStmt:
+				note(x)
+			case *ast.AssignStmt:
+				note(x)
+			case *ast.IncDecStmt:
+				note(x)
+			}
+			return true
+		})
+	}
+	visit(body)
 }
 
 // ---------------------------------------------------------------------------
@@ -1044,6 +1109,17 @@ func (fv *FV) effects(st *State, nodes []ast.Node, body *ast.BlockStmt) *loopEff
 			}
 		case *ast.StarExpr:
 			t := fv.typeOf(y.X)
+			// *v where v := (*uint64)(unsafe.Pointer(&X[i])) or v := &X[i] in the same loop: a write into X's window
+			if id, ok := ast.Unparen(y.X).(*ast.Ident); ok {
+				if src := fv.pointerSource(nodes, fv.info.ObjectOf(id)); src != nil {
+					if et := elemType(fv.typeOf(src)); et != nil {
+						key, _ := fv.elemComp(et)
+						eff.comps[key] = true
+						eff.targets = append(eff.targets, effTarget{key: key, base: src})
+						return
+					}
+				}
+			}
 			if pt, ok := t.Underlying().(*types.Pointer); ok {
 				if named, sty := structOf(pt.Elem()); sty != nil && named != nil {
 					for i := 0; i < sty.NumFields(); i++ {
@@ -1516,4 +1592,44 @@ func (fv *FV) emitAxioms(st *State) {
 		}
 	}
 	walk(fv.pc)
+}
+
+// pointerSource finds, for a pointer variable defined inside the given nodes as &X[i] (possibly through
+// unsafe.Pointer conversions), the slice expression X.
+func (fv *FV) pointerSource(nodes []ast.Node, obj types.Object) ast.Expr {
+	var found ast.Expr
+	strip := func(e ast.Expr) ast.Expr {
+		for {
+			e = ast.Unparen(e)
+			c, ok := e.(*ast.CallExpr)
+			if !ok || len(c.Args) != 1 {
+				return e
+			}
+			if tv, ok := fv.info.Types[c.Fun]; !ok || !tv.IsType() {
+				return e
+			}
+			e = c.Args[0]
+		}
+	}
+	for _, nd := range nodes {
+		ast.Inspect(nd, func(n ast.Node) bool {
+			as, ok := n.(*ast.AssignStmt)
+			if !ok || len(as.Lhs) != len(as.Rhs) {
+				return true
+			}
+			for i, l := range as.Lhs {
+				id, ok := l.(*ast.Ident)
+				if !ok || fv.info.ObjectOf(id) != obj {
+					continue
+				}
+				if u, ok := strip(as.Rhs[i]).(*ast.UnaryExpr); ok && u.Op == token.AND {
+					if ix, ok := ast.Unparen(u.X).(*ast.IndexExpr); ok {
+						found = ix.X
+					}
+				}
+			}
+			return true
+		})
+	}
+	return found
 }
